@@ -351,7 +351,7 @@ theorem mcBatchSlow_spec (hRE : ExpReg RE) {sup : Ops} (asts : List Exp) (hre : 
 
 /-- **ModelCacheMixin.batch_eval** keeps the invariant and answers as the specification demands, if the rest of the MRO
 does -/
-theorem mc_batchEval_spec (hP : PickValid E) (hRE : ExpReg RE) {sup : Ops} (asts : List Exp) (hre : ∀ e ∈ asts, RE e)
+theorem mc_batchEval_spec (hP : PickOk E) (hRE : ExpReg RE) {sup : Ops} (asts : List Exp) (hre : ∀ e ∈ asts, RE e)
     (n : Nat) (hn : 1 ≤ n) (extra : List Con)
     (hsup : ∀ n' extra', 1 ≤ n' → BatchSpec R RE E G U asts n' extra' (sup.batchEval asts n' extra')) :
     BatchSpec R RE E G U asts n extra (modelCacheBatchEval E sup asts n extra) := by
@@ -410,7 +410,7 @@ theorem mc_batchEval_spec (hP : PickValid E) (hRE : ExpReg RE) {sup : Ops} (asts
     | error e => exact fun ⟨a, b, c⟩ => ⟨a, b, hk1.trans c⟩
 
 /-- **ModelCacheMixin.eval** (`batch_eval` of one expression) -/
-theorem mc_eval_spec (hP : PickValid E) (hRE : ExpReg RE) {self sup : Ops} (e : Exp) (he : RE e) (hc : e.conc = none)
+theorem mc_eval_spec (hP : PickOk E) (hRE : ExpReg RE) {self sup : Ops} (e : Exp) (he : RE e) (hc : e.conc = none)
     (n : Nat) (hn : 1 ≤ n) (extra : List Con)
     (hsup : ∀ n' extra', 1 ≤ n' → BatchSpec R RE E G U [e] n' extra' (sup.batchEval [e] n' extra')) :
     EvalSpec R RE E G U e n extra ((modelCacheLayer E self sup).eval e n extra) := by
